@@ -418,4 +418,10 @@ example : parseLayout c06Cfg.t.protoFromU8 c06Cfg.t.ipHdr [0,36, 0,0,0,1, 0,0,0,
 example : (v9ParseBody c06Cfg {} 0 [1,0, 0,1, 0,1, 0,3,  1,1, 0,1, 0,2, 0,4]).2 =
     .ok (.templates [c06T 3, { id := 257, fieldCount := 1, fields := [{ typ := 2, len := 4 }] }] []) := by decide
 
+/-- **C06.0** (regenerated from the source on every run) the library declares no mutable global or per-thread state
+    (`static mut`, `thread_local!`, `OnceLock`/`OnceCell`/`lazy_static!`, `static … : Mutex|RwLock|Atomic…`), as the model assumes
+    by making `parseBytes` a function of `(config, parser state, buffer)`: the caches of one parser value are the ONLY state: nothing is shared between parser instances or kept per thread. -/
+theorem C06_no_global_state : Generated.noGlobals = true := by decide
+
+
 end Netflow.Props
